@@ -566,8 +566,19 @@ class World:
             w.quoted[key] = s
             return key
 
+        def _concrete_only(fn_name):
+            real = getattr(_up, fn_name)
+
+            def call(*a, **k):
+                if any(getattr(x, "_ostr", False) or isinstance(x, SymStr) for x in a):
+                    raise Unsupported("urllib.parse.%s on an opaque string" % fn_name)
+                return real(*a, **k)
+            return call
         up = types.SimpleNamespace(quote_plus=quote_plus, quote=quote_plus, unquote_plus=_up.unquote_plus,
                                    urlencode=_Proxy("urllib.parse").__getattr__)
+        for fn_name in ("urlsplit", "urlunsplit", "urlparse", "urlunparse", "unquote", "urljoin", "urldefrag", "parse_qs", "parse_qsl"):
+            setattr(up, fn_name, _concrete_only(fn_name))
+        up.SplitResult, up.ParseResult = _up.SplitResult, _up.ParseResult
         m["urllib.parse"] = up
         m["urllib"] = types.SimpleNamespace(parse=up)
 
